@@ -41,7 +41,7 @@ def leafAt (d : Dict) (k0 : String) (rest : List String) : Option Val :=
 /-- the version key of the path below a node whose own key is `p`: `p.k1.k2...` -/
 def keyOf (p : String) : List String → String
   | [] => p
-  | k :: rest => keyOf (p ++ "." ++ k) rest
+  | k :: rest => keyOf (p ++ "." ++ esc k) rest
 
 structure Task where
   parents : List Nat
